@@ -100,6 +100,10 @@ pub struct ClientSpec {
     pub target: u8,
     pub at_ms: u16,
     pub groups: Vec<(u8, u16)>,
+    /// after the flood, one transaction of the given (oversized) length every `period` ms until
+    /// the end of the run
+    #[serde(default)]
+    pub drip: Option<(u16, u16)>,
 }
 
 pub struct C10;
@@ -179,7 +183,8 @@ impl Property for C10 {
             1 => (1u8..=3, 513u16..=1400),
             2 => (1u8..=20, 0u16..=512),
         ];
-        let client = (0u8..4, 0u16..6400, prop::collection::vec(group, 1..40)).prop_map(|(target, at_ms, groups)| ClientSpec { target, at_ms, groups });
+        let client = (0u8..4, 0u16..6400, prop::collection::vec(group, 1..40), prop::option::weighted(0.35, (513u16..=1400, 10u16..=150)))
+            .prop_map(|(target, at_ms, groups, drip)| ClientSpec { target, at_ms, groups, drip });
         (4u8..=6, any::<u8>(), any::<u64>(), prop::collection::vec((0u8..100, any::<u8>(), hostile), 1..40), 4u8..10, shred_delay, prop::option::weighted(0.25, client))
             .prop_map(|(n, byz, seed, hostile, hostile_phase_s, shred_delay_ms, client)| Case { n, byz, seed, hostile, hostile_phase_s, equal_stakes: false, shred_delay_ms, client })
             .boxed()
@@ -450,9 +455,18 @@ async fn run_client(case: &Case, spec: &ClientSpec) -> Outcome {
     let mut t = 0u64;
     let end = spec.at_ms as u64 + 8_500;
     let mut injected = false;
+    let mut fin_at_inject = 0u64;
+    let step = spec.drip.map(|(_, p)| (p as u64).clamp(10, 100)).unwrap_or(100);
+    if spec.drip.is_some() {
+        out.label("client-drip-of-oversized-transactions");
+    }
+    let mut drip_i = 0u64;
     while t < end && !out.failed() {
         if !injected && t >= spec.at_ms as u64 {
             injected = true;
+            for nd in &nodes {
+                fin_at_inject = fin_at_inject.max(nd.finalized_slot().await);
+            }
             let mut i = 0u64;
             for (count, len) in &spec.groups {
                 for _ in 0..*count {
@@ -466,9 +480,15 @@ async fn run_client(case: &Case, spec: &ClientSpec) -> Outcome {
                     sent.push(tx.0);
                 }
             }
+        } else if injected
+            && let Some((len, _)) = spec.drip
+        {
+            drip_i += 1;
+            let tx = Transaction(prng_bytes(case.seed ^ (drip_i << 32), len as usize));
+            switch.inject(addr(Iface::Tx, target), wincode::serialize(&tx).unwrap_or_default());
         }
-        advance(100).await;
-        t += 100;
+        advance(step).await;
+        t += step;
         let panics = take_panics();
         if !panics.is_empty() {
             let p = panics.join(" | ");
@@ -556,6 +576,24 @@ async fn run_client(case: &Case, spec: &ClientSpec) -> Outcome {
             format!("client flood {:?} towards validator {target} at {} ms: only {} of {} admissible transactions appear in the blocks it produced during the following 8.5 s (finalized slots {fins:?})", spec.groups, spec.at_ms, included.len(), accepted.len()),
         );
         return out;
+    }
+    // a correct leader on a timely, fault-free network produces (and nobody skips) all four blocks
+    // of each of its windows, whatever the clients send
+    let min_fin = fins.iter().copied().min().unwrap_or(0);
+    let have: std::collections::BTreeSet<u64> = blocks.iter().map(|b| b.0).collect();
+    for w in 1..=(min_fin / 4) {
+        if (w % n as u64) as usize != target || w * 4 < fin_at_inject + 6 || w * 4 + 3 > min_fin {
+            continue;
+        }
+        out.checks += 1;
+        let missing: Vec<u64> = (w * 4..w * 4 + 4).filter(|s| !have.contains(s)).collect();
+        if !missing.is_empty() {
+            out.violate(
+                "C10/client/leader-stopped-producing",
+                format!("client flood {:?} (drip {:?}) towards validator {target} at {} ms: in its window {w}, which every node has finalised past, it disseminated no complete block for slots {missing:?}", spec.groups, spec.drip, spec.at_ms),
+            );
+            return out;
+        }
     }
     out.checks += 1;
     let expect = (end / 400).saturating_sub(12);
